@@ -1091,7 +1091,9 @@ Notes:
     if pm: 
       pm = product_measure(pm)
       self.load(pm.flatten(), pm.pts)
-    if values is None or not len(values): values = []
+    try: empty = not len(values)
+    except TypeError: empty = not values # (None, or a scalar, has no length)
+    if empty: values = []
     self.__Y = values # storage for values of s.positions
     return
 
